@@ -44,6 +44,7 @@ type HarnessSummary struct {
 	MaxPathInstr int64            `json:"max_path_instructions"`
 	Assertions   map[string]int64 `json:"assertions_checked"`
 	Violations   int              `json:"violations_found"`
+	Concurrent   bool             `json:"interleavings_explored,omitempty"`
 	Uncovered    int64            `json:"paths_not_covered,omitempty"`
 	UncoveredWhy []string         `json:"not_covered_because,omitempty"`
 	WallS        float64          `json:"wall_s"`
@@ -86,7 +87,7 @@ func (ev *Evidence) fill(results []*HarnessResult, ld *Loaded, cfg Config, valid
 		}
 		c.Harnesses = append(c.Harnesses, HarnessSummary{Name: r.Name, Paths: r.Paths, PathsDone: r.PathsDone, PathsVacuous: r.PathsAssume,
 			Decisions: r.Decisions, Instructions: r.Instructions, MaxPathInstr: r.MaxPathInstr, Assertions: r.Labels,
-			Violations: len(r.Violations), WallS: r.Wall.Seconds(), Uncovered: r.Uncovered, UncoveredWhy: r.UncoveredWhy})
+			Violations: len(r.Violations), WallS: r.Wall.Seconds(), Uncovered: r.Uncovered, UncoveredWhy: r.UncoveredWhy, Concurrent: r.Concurrent})
 	}
 	c.Queries["feasibility"] = c.Queries["total"] - c.Queries["assertion"]
 	if c.Transitions == 0 {
